@@ -3,7 +3,7 @@ import ast
 import itertools
 
 from ..core import AnalysisError, const_value, call_name, dotted
-from ..sites_eval import evaluate_site, Sym, Net
+from ..sites_eval import evaluate_site, Sym, Net, TFloat, deps_of
 
 EXPLANATION = ("The three site factories (caltech_acn, jpl_acn, office001_acn) and simple_acn are partially evaluated from their syntax "
                "trees with the transformer capacities kept symbolic, for basic_evse in {False, True}; on the evaluated tables: every EVSE "
@@ -79,7 +79,7 @@ def match_triple(rows, angle):
     return None, reason
 
 
-def check_site(ck, name, spec, basic, entry=None):
+def check_site(ck, name, spec, basic, entry=None, voltage=None):
     repo = ck.repo
     fn = repo.fn(entry or name, module=spec["module"])
     params = fn.params
@@ -90,8 +90,18 @@ def check_site(ck, name, spec, basic, entry=None):
     if "basic_evse" not in params:
         raise AnalysisError(f"{name}: parameter basic_evse vanished")
     over["basic_evse"] = basic
+    v0 = None
+    if "voltage" in params:
+        # the site voltage is evaluated as a *tainted* number: every value computed from it remembers the dependence, so a limit that
+        # follows the `voltage` argument (ratings are at the nominal 208 V / 120 V whatever voltage the EVSEs are registered with) is seen
+        try:
+            v0 = float(const_value(fn.defaults()["voltage"])) if voltage is None else float(voltage)
+        except (KeyError, ValueError, TypeError):
+            raise AnalysisError(f"{name}: default of parameter voltage is not a literal")
+        over["voltage"] = TFloat(v0, {"voltage"})
     net, _ = evaluate_site(repo, spec["module"], entry or name, **over)
-    tag = f"{entry or name}(basic_evse={basic})"
+    tag = f"{entry or name}(basic_evse={basic})" if voltage is None else f"{entry or name}(basic_evse={basic}, voltage={voltage:g})"
+    btag = f"{basic}" if voltage is None else f"{basic}@{voltage:g}V"
     ck.count("evaluated EVSE registrations", len(net.evses))
     ck.count("evaluated constraints", len(net.cons))
     if len(net.evses) < MIN_EVSES[name]:
@@ -102,13 +112,13 @@ def check_site(ck, name, spec, basic, entry=None):
     ids = [e[0] for e in net.evses]
     dup = sorted({i for i in ids if ids.count(i) > 1})
     ck.require(not dup, "C16.F1", fn, f"{tag}: station ids", ok=f"{len(ids)} unique station ids", bad=f"station ids registered twice: {dup}",
-               sink=f"{basic}:dup-id")
+               sink=f"{btag}:dup-id")
     bad_ang = sorted({(i, a) for i, t, v, a, ln in net.evses if not any(isinstance(a, (int, float)) and angle_eq(a, x) for x in ANGLES)}, key=str)
     ck.require(not bad_ang, "C16.F1", fn, f"{tag}: phase angles", ok="every EVSE has one of the line-to-line angles 30/-90/150",
-               bad=f"EVSEs with an angle outside {{30,-90,150}}: {bad_ang[:6]}", sink=f"{basic}:angle")
+               bad=f"EVSEs with an angle outside {{30,-90,150}}: {bad_ang[:6]}", sink=f"{btag}:angle")
     bad_ty = sorted({(i, t) for i, t, v, a, ln in net.evses if t not in handled}, key=str)
     ck.require(not bad_ty, "C16.F1", fn, f"{tag}: EVSE types", ok=f"every type string is handled by get_evse_by_type {sorted(handled)}",
-               bad=f"type strings get_evse_by_type does not handle (it would return None): {bad_ty[:6]}", sink=f"{basic}:type")
+               bad=f"type strings get_evse_by_type does not handle (it would return None): {bad_ty[:6]}", sink=f"{btag}:type")
     want_basic = {t for _, t, _, _, _ in net.evses}
     if basic:
         ck.require(want_basic == {"BASIC"}, "C16.F1", fn, f"{tag}: basic types", ok="basic_evse=True registers only BASIC EVSEs",
@@ -118,7 +128,7 @@ def check_site(ck, name, spec, basic, entry=None):
     for cname, cur, lim, ln in net.cons:
         unk = sorted(k for k, v in cur.coef.items() if v != 0 and k not in registered)
         ck.require(not unk, "C16.F1", fn, f"{tag}: constraint {cname!r}", ok="every station of the constraint is registered",
-                   bad=f"constraint names unregistered stations {unk[:6]} (add_constraint would raise)", sink=f"{basic}:{cname}:unregistered")
+                   bad=f"constraint names unregistered stations {unk[:6]} (add_constraint would raise)", sink=f"{btag}:{cname}:unregistered")
 
     # ---- F2 transformer triples
     covered = set()
@@ -138,7 +148,7 @@ def check_site(ck, name, spec, basic, entry=None):
             break
         ck.require(found is not None, "C16.F2", fn, f"{tag}: line-current triple for {cap}",
                    ok="three constraints are the wye line currents of one station set with consistent angles",
-                   bad=f"no triple of secondary (line-current) constraints for {cap}: {why}", sink=f"{basic}:{cap}:triple")
+                   bad=f"no triple of secondary (line-current) constraints for {cap}: {why}", sink=f"{btag}:{cap}:triple")
         if not found:
             continue
         tri, groups = found
@@ -152,13 +162,13 @@ def check_site(ck, name, spec, basic, entry=None):
             ck.require(good, "C16.F2", fn, f"{tag}: limit of {cname!r} = {lim}",
                        ok=f"limit = {coef:.6g}*{cap} <= capacity*1000/(3*120), no constant term",
                        bad=f"the secondary limit must be c*{cap} with 0 < c <= {K_SECONDARY:.6g} (= 1000/(3*120 V)) and no constant term; "
-                           f"got {lim}: feasible schedules could draw more than the rated power", sink=f"{basic}:{cname}:limit")
+                           f"got {lim}: feasible schedules could draw more than the rated power", sink=f"{btag}:{cname}:limit")
     # every capacity-bounded unit row must belong to the structure (a fourth stray row is fine; a missing one was reported above)
 
     # ---- F3 coverage
     missing = sorted(registered - covered)
     ck.require(not missing, "C16.F3", fn, f"{tag}: transformer coverage", ok=f"all {len(registered)} EVSEs are inside a transformer's line-current triple",
-               bad=f"EVSEs not covered by any transformer constraint: {missing[:8]}", sink=f"{basic}:coverage")
+               bad=f"EVSEs not covered by any transformer constraint: {missing[:8]}", sink=f"{btag}:coverage")
     for (c1, s1), (c2, s2) in itertools.combinations(transformer_sets, 2):
         if s1 & s2:
             ck.note(f"{tag}: transformers {c1} and {c2} share stations {sorted(s1 & s2)[:4]} (double counted, conservative)")
@@ -168,16 +178,16 @@ def check_site(ck, name, spec, basic, entry=None):
     for pod, rating in spec["pods"].items():
         hit = [r for r in const_rows if r[0] == pod]
         ck.require(len(hit) == 1, "C16.F4", fn, f"{tag}: pod constraint {pod!r}", ok="present", bad=f"{len(hit)} constraints named {pod!r} (need 1)",
-                   sink=f"{basic}:{pod}:exists")
+                   sink=f"{btag}:{pod}:exists")
         for cname, row, lim in hit:
             vals = set(row.values())
             angs = {angle.get(k) for k in row}
             ck.require(bool(row) and (vals == {1} or vals == {-1}) and len(angs) == 1, "C16.F4", fn, f"{tag}: {cname!r} row",
                        ok=f"unit-coefficient sum over {len(row)} stations of one angle (phasor magnitude = plain sum)",
                        bad=f"a pod constraint must be a unit-coefficient sum over stations of a single angle; coefficients {sorted(vals)}, angles {sorted(angs, key=str)}",
-                       sink=f"{basic}:{pod}:row")
+                       sink=f"{btag}:{pod}:row")
             ck.require(isinstance(lim, (int, float)) and 0 < lim <= rating, "C16.F4", fn, f"{tag}: {cname!r} limit {lim}",
-                       ok=f"limit {lim} A <= rating {rating} A", bad=f"limit {lim} exceeds the pod's {rating} A rating", sink=f"{basic}:{pod}:limit")
+                       ok=f"limit {lim} A <= rating {rating} A", bad=f"limit {lim} exceeds the pod's {rating} A rating", sink=f"{btag}:{pod}:limit")
     if "CC Pod" in spec["pods"] and not basic:
         cc = {i for i, t, v, a, ln in net.evses if t == "ClipperCreek"}
         hit = [r for r in const_rows if r[0] == "CC Pod"]
@@ -188,33 +198,50 @@ def check_site(ck, name, spec, basic, entry=None):
     for panel, rating in spec["panels"].items():
         rows = [r for r in const_rows if r[0].startswith(panel + " ")]
         ck.require(len(rows) == 3, "C16.F4", fn, f"{tag}: panel {panel!r}", ok="three per-phase constraints", bad=f"{len(rows)} constraints for panel {panel!r} (need 3)",
-                   sink=f"{basic}:{panel}:exists")
+                   sink=f"{btag}:{panel}:exists")
         if len(rows) != 3:
             continue
         groups, reason = match_triple([r[1] for r in rows], angle)
         ck.require(groups is not None, "C16.F4", fn, f"{tag}: panel {panel!r} rows", ok="the three rows are the panel's line currents",
-                   bad=f"panel rows are not a line-current triple: {reason}", sink=f"{basic}:{panel}:triple")
+                   bad=f"panel rows are not a line-current triple: {reason}", sink=f"{btag}:{panel}:triple")
         for cname, row, lim in rows:
             ck.require(isinstance(lim, (int, float)) and 0 < lim <= rating, "C16.F4", fn, f"{tag}: {cname!r} limit {lim}",
-                       ok=f"limit {lim} A <= rating {rating} A", bad=f"limit {lim} exceeds the panel's {rating} A rating", sink=f"{basic}:{cname}:limit")
+                       ok=f"limit {lim} A <= rating {rating} A", bad=f"limit {lim} exceeds the panel's {rating} A rating", sink=f"{btag}:{cname}:limit")
         if groups:
             s = set().union(*groups)
             panel_sets[panel] = s
             inside = [c for c, ts in transformer_sets if s <= ts]
             ck.require(bool(inside), "C16.F4", fn, f"{tag}: panel {panel!r} stations", ok=f"the panel's stations all hang off transformer {inside[:1]}",
-                       bad="the panel's stations are not a subset of one transformer's station set", sink=f"{basic}:{panel}:subset")
+                       bad="the panel's stations are not a subset of one transformer's station set", sink=f"{btag}:{panel}:subset")
     for (p1, s1), (p2, s2) in itertools.combinations(sorted(panel_sets.items()), 2):
         ck.require(not (s1 & s2), "C16.F4", fn, f"{tag}: panels {p1!r} / {p2!r}", ok="distinct panels constrain disjoint station sets",
                    bad=f"the constraints named {p1!r} and {p2!r} bound the same stations {sorted(s1 & s2)[:4]}...: one of the two panels is in fact left without its "
-                       f"current limit", sink=f"{basic}:{p1}|{p2}:disjoint")
+                       f"current limit", sink=f"{btag}:{p1}|{p2}:disjoint")
     pod_sets = {r[0]: set(r[1]) for r in const_rows if r[0] in spec["pods"]}
     for (p1, s1), (p2, s2) in itertools.combinations(sorted(pod_sets.items()), 2):
         ck.require(not (s1 & s2), "C16.F4", fn, f"{tag}: pods {p1!r} / {p2!r}", ok="distinct pods constrain disjoint station sets",
-                   bad=f"pods {p1!r} and {p2!r} bound the same stations", sink=f"{basic}:{p1}|{p2}:disjoint")
+                   bad=f"pods {p1!r} and {p2!r} bound the same stations", sink=f"{btag}:{p1}|{p2}:disjoint")
     known = set(spec["pods"]) | {f"{p} I_{x}" for p in spec["panels"] for x in "abc"}
     for cname, row, lim in const_rows:
         if cname not in known:
             ck.error("C16.F4", f"{tag}: constant-limit constraint {cname!r} is not in the rating table (re-anchor the table)")
+    # ---- F6 ratings do not follow the voltage argument
+    if voltage is None and v0 is not None:
+        dep = [(cname, lim) for cname, cur, lim, ln in net.cons if deps_of(lim)]
+        ck.count("constraint limits checked for dependence on the voltage argument", len(net.cons))
+        if not dep:
+            ck.holds("C16.F6", fn, f"{tag}: {len(net.cons)} limits", "no constraint limit is computed from the `voltage` argument: the bounds above hold for every voltage")
+        else:
+            before = len(ck.violations)
+            for probe in (v0 / 2, v0 * 2):
+                check_site(ck, name, spec, basic, entry=entry, voltage=probe)
+            if len(ck.violations) == before:
+                ck.error("C16.F6", f"{tag}: the limits of {[c for c, _ in dep][:4]} are computed from the `voltage` argument; they are within the ratings at "
+                                   f"{v0:g}, {v0 / 2:g} and {v0 * 2:g} V but the evaluator cannot bound them for every voltage")
+            else:
+                ck.violation("C16.F6", fn, f"{tag}: limits of {[c for c, _ in dep][:4]}", f"constraint limits follow the `voltage` argument (ratings are at nominal "
+                             f"voltages): at voltage={v0 / 2:g} or {v0 * 2:g} they exceed the rated current (see the C16.F2/F4 reports tagged with that voltage)",
+                             sink=f"{btag}:voltage-dependent-limit")
     return net
 
 
